@@ -80,6 +80,8 @@ class SimQueue:
         if kind in ('result', 'exc'):
             sim.note_progress()
             if e is not None and e.kind == 'worker':
+                if e.phase == 'save':
+                    sim.ev('save-steps', e.name, e.phase_steps)
                 e.set_phase('post')
 
     def put_nowait(self, obj):
